@@ -104,6 +104,11 @@ def run(chk):
         for prob_ in C.batch_contract(sh_.compute_form_factor_amplitude, np.array([[0.3, -0.2, 0.5], [1.0, 0.0, 0.0], [0.0, 0.0, 0.0], [0.1, 0.7, -0.4], [0.0, 0.0, 2.0], [-0.6, 0.2, 0.1]]), "c", bare_row=False, lists=False):      # (documented input: an (N, 3) array; the property speaks of batches from (1, 3) upward)
             chk.violation("batch-contract", dict(cls=cls_, what=prob_)); break
         chk.count("batch-contract")
+        # a copy of a shape (deepcopy / pickle) scatters like its original, and resizing either leaves the other's amplitudes alone
+        Qc_ = np.array([[0.3, -0.2, 0.5], [0.0, 0.0, 0.0], [0.0, 0.0, 2.0], [-0.6, 0.2, 0.1]])
+        for prob_ in C.copy_probe(lambda: Z_.make(cls_)[0], lambda s_: dict(re=np.real(s_.compute_form_factor_amplitude(Qc_)), im=np.imag(s_.compute_form_factor_amplitude(Qc_))))[:1]:
+            chk.violation("copy-scatters-differently", dict(cls=cls_, q=Qc_.tolist(), what=prob_))
+        chk.count("copy-probe")
     nsh, nq = (8, 12) if chk.tier == "quick" else (120, 60)
     chk.notes["rule"] = ("convex sets, closed meshes (voxel/extrusion/star) and simple polygons (both orientations, tilted) and spheres, exactly placed off-origin; "
                          "q: random directions with |q|*size in [1e-3,30], exactly along face normals, perpendicular to edges, along axes, q=0; batches of "
